@@ -5,6 +5,7 @@
 From Coq Require Import List NArith Bool.
 Import ListNotations.
 Require Import Verif.Lib.Wire Verif.Lib.C15Prog Verif.Gen.Facts_C15 Verif.Model.C15 Verif.Proofs.C15.
+Require Import Verif.Proofs.C15_sched Verif.Proofs.C15_lock.
 
 (* the translated programs are the ones the development is about (parameters: write through the
    local, [if views:] guard present, cache cleared by swapping in a new dictionary after registering) *)
@@ -100,6 +101,61 @@ Proof. exact (fun sro R0 tr j vs t tbl He Ht Hc =>
                conj facts_call_view_reads_only
                     (conj facts_multiview_stateless (request_answer_sound sro R0 tr j vs t tbl He Ht Hc))). Qed.
 Print Assumptions C15_request_answer_sound.
+
+(* the wire glue is covered: the state reported by the scheduler of nested schedules is [exec] of the
+   label trace it reports (any programs, any nested schedule, any fuel) *)
+Theorem C15_sched_sound : forall sro LP RP fuel ops st0,
+  let s := run_ops sro LP RP fuel ops (st0, [], []) in
+  sstate s = exec sro LP RP (rev (strace s)) st0.
+Proof. exact sched_sound. Qed.
+Print Assumptions C15_sched_sound.
+
+(* the lock: at most one thread is between Lock and Unlock, and it is the holder *)
+Theorem C15_lock_mutual_exclusion : forall sro R0 tr i j ti tj,
+  let st := exec sro lookup_prog register_prog tr (init R0) in
+  threads st i = Some ti -> threads st j = Some tj ->
+  in_critical ti = true -> in_critical tj = true -> i = j /\ lock st = Some i.
+Proof. exact mutual_exclusion. Qed.
+Print Assumptions C15_lock_mutual_exclusion.
+
+(* the holder releases the lock within two of its own steps, after which every thread waiting at Lock
+   is enabled *)
+Theorem C15_lock_holder_releases : forall sro R0 tr i,
+  let st := exec sro lookup_prog register_prog tr (init R0) in
+  lock st = Some i ->
+  lock (exec sro lookup_prog register_prog [Step i; Step i] st) = None /\
+  forall j tj rest, threads st j = Some tj -> cont tj = Lock :: rest ->
+                    enabled (exec sro lookup_prog register_prog [Step i; Step i] st) j = true.
+Proof. exact holder_releases. Qed.
+Print Assumptions C15_lock_holder_releases.
+
+(* no deadlock: in every reachable state with an unfinished thread some thread is enabled, and its
+   step executes an instruction *)
+Theorem C15_no_deadlock : forall sro R0 tr j,
+  let st := exec sro lookup_prog register_prog tr (init R0) in
+  unfinished st j = true ->
+  exists i t t', enabled st i = true /\ threads st i = Some t /\
+                 threads (do_label sro lookup_prog register_prog st (Step i)) i = Some t' /\
+                 tpc t' = S (tpc t).
+Proof. exact no_deadlock. Qed.
+Print Assumptions C15_no_deadlock.
+
+(* what the lock is needed for: nothing, as far as this property goes.  Without the lock, and even when
+   [cache[key] = views] is split into a read of the dictionary and a write-back (read-modify-write, so
+   that concurrent writers can lose each other's entry -- Example lost_update_is_only_a_miss), lookups
+   are still fresh and misses are still never cached, over all traces.  (Removing the lock in the source
+   is therefore benign for C15; the check reports it as a broken tie without a failing input.) *)
+Theorem C15_lookup_fresh_without_lock :
+  fresh_claim (lookup_with wb_nolock) register_prog /\
+  fresh_claim (lookup_with wb_nolock_split) register_prog.
+Proof. exact (conj lookup_fresh_nolock lookup_fresh_nolock_split). Qed.
+Print Assumptions C15_lookup_fresh_without_lock.
+
+Theorem C15_misses_not_cached_without_lock :
+  misses_claim (lookup_with wb_nolock) register_prog /\
+  misses_claim (lookup_with wb_nolock_split) register_prog.
+Proof. exact (conj misses_not_cached_nolock misses_not_cached_nolock_split). Qed.
+Print Assumptions C15_misses_not_cached_without_lock.
 
 (* every other value of the program parameters is refuted by a concrete schedule (also replayed on
    the implementation by the violation search) *)
